@@ -31,6 +31,9 @@ import (
 const maxDeclaredArea = 1 << 24 // pixel-decoding entry points are skipped above this declared area
 const callTimeout = 20 * time.Second
 
+// hung counts, per entry point, the calls that did not return within callTimeout.
+var hung = map[string]int{}
+
 type outcome struct {
 	class string // ok | err | panic | timeout
 	info  string
@@ -529,6 +532,13 @@ func evalInput(c *Ctx, kind string, b []byte) {
 	big := declaredArea(b) > maxDeclaredArea
 	vec := ""
 	for _, e := range entries {
+		if hung[e.name] >= 2 {
+			// this entry point already hung twice (each leaves a spinning goroutine behind):
+			// the violation is recorded, do not burn the rest of the run on it
+			c.Count("skipped-after-timeouts")
+			vec += "x"
+			continue
+		}
 		if e.pixels && big {
 			c.Count("skipped-declared-large")
 			vec += "s"
@@ -537,6 +547,9 @@ func evalInput(c *Ctx, kind string, b []byte) {
 		o := guarded(func() (string, error) { return e.run(b) })
 		vec += o.class[:1]
 		c.Count(e.name + "-" + o.class)
+		if o.class == "timeout" {
+			hung[e.name]++
+		}
 		if o.class == "panic" || o.class == "timeout" {
 			key := o.class + "-" + e.name
 			if o.class == "panic" && isRiffSizeClass(b) && (e.name == "Demuxer" || e.name[:9] == "animation") {
